@@ -500,9 +500,13 @@ func genSeq(u *universe, r *rand.Rand, nops int) []seqOp {
 				delete(h, typeOf(id.Type).PrimaryKey[0]) // mandatory key missing
 			}
 			o := seqOp{K: "find", Type: id.Type, Headers: h}
-			if r.Intn(3) == 0 {
+			if r.Intn(2) == 0 {
 				o.K = "findmax"
-				o.MaxFormat = r.Intn(maxFormatOf(id.Type)+2) - 1
+				mf := maxFormatOf(id.Type)
+				o.MaxFormat = r.Intn(mf + 1)
+				if mf > 0 && r.Intn(2) == 0 {
+					o.MaxFormat = r.Intn(2) // low: more likely below the newest revision's format
+				}
 				if r.Intn(20) == 0 {
 					o.MaxFormat = maxFormatOf(id.Type) + 1
 				}
